@@ -534,7 +534,8 @@ def structures(draw, max_res=40, min_res=2, allow_ball=True, allow_hetero=True, 
             entries.extend(r)
         ter = True if always_ter else draw(st.sampled_from([True, True, False]))
         if ter:
-            entries.append(ter_line(c[-1][-1]))
+            # one TER in four carries no residue fields (both forms are common in deposited files)
+            entries.append(ter_line(c[-1][-1] if draw(st.integers(0, 3)) else None))
         elif ci < len(chains) - 1:
             labels.append("no-ter-break")
     # ---- hetero groups: library ligands and ions placed next to a drawn atom ----
